@@ -274,7 +274,7 @@ def readRequestBody (w : Nat) (r : Registry) (sup : List Str) (h : Hdrs) (wire :
     | .error e => .error e
   else match h.contentLength with
     | none => decodeBody r sup h none
-    | some .empty => decodeBody r sup h none
+    | some .empty => .error .value                -- repaired: int('') raises (was: treated like a missing header)
     | some .bad => .error .value
     | some (.val n) =>
       if n < 0 then .error .value            -- repaired: a negative length is rejected (was: read until the peer closes)
@@ -316,6 +316,12 @@ def sendRequest (r : Registry) (supported requestEncs : List Str) (chunk : Nat) 
   | .ok (h, wire) =>
     .ok ({ h with acceptEncoding := if supported.isEmpty then none else some (joinWith [44] supported) }, wire)
   | .error e => .error e
+
+/-- a notification (or SubscriptionEnd) to a subscriber: the provider's soap client is created with
+    `request_encodings = parse_header(Accept-Encoding of the Subscribe request)` and the provider's live list of enabled codings -/
+def notify (r : Registry) (enabled : List Str) (chunk : Nat) (subscribeAcceptEncoding : Option Str) (report : Bytes) :
+    Except Err (Hdrs × Bytes) :=
+  sendRequest r enabled (parseHeader (subscribeAcceptEncoding.getD [])) chunk report
 
 /-- `DispatchingRequestHandler.do_POST` after the component returned `body`: coded / framed response -/
 def respond (r : Registry) (serverSupported : List Str) (chunk : Nat) (acceptEncoding : Option Str) (body : Bytes) :
